@@ -314,7 +314,7 @@ def words_for(sfmt, dfmt, encs):
     base = ["a", "b", "Haus", "x1", ",", ".", "&", "<tag>", "\"q\"", "it's", "ABCDEFG", "ABCDEFGH", "ABCDEFGHIJKLMNOP"]
     if all(e != "latin-1" for e in encs):
         base += ["λ", "中", "\U0001F600"]
-    base += ["ä", "Über", "é"]
+    base += ["ä", "Über", "é", "#1", "#42", "#1234"]      # only '#' + exactly three digits is a node reference in export
     if not bracket_src:
         base += ["(", ")", "a(b", "-LRB-", "[x]"]
     else:
